@@ -139,6 +139,8 @@ def judge(prop, nthreads, ncalls, hist, sections, r):
             have = [n for _, n in calls]
             if want and have != want:
                 v.append(("snoopy_threads", "thread %d logged %%{snoopy_threads} = %r, under this schedule the specification gives %r" % (t, have, want)))
+        if r.get("umask", 0o22) != 0o22:
+            v.append(("process-state:umask", "after all calls returned the process's umask is %03o (022 before): a call's temporary setting was clobbered by another thread's" % r["umask"]))
         if any(x != 2 for x in r.get("rets", [])):
             v.append(("exec-result", "exec calls returned errno %r instead of ENOENT" % r.get("rets")))
     else:
